@@ -491,6 +491,17 @@ func c06directed(c *mon.Ctx) {
 		{"a in b", func(a, b *model.Expr) *model.Expr { return model.Bin(model.OIn, a, b) }},
 		{"a in [b, X]", func(a, b *model.Expr) *model.Expr { return model.Bin(model.OIn, a, model.SetE(b, lx)) }},
 		{"a is U in b", func(a, b *model.Expr) *model.Expr { return model.IsIn(a, "U", b) }},
+		// branches that are projections of a composite which still holds an unknown
+		{"(if a == X then context.rec else context.rec).k == b", func(a, b *model.Expr) *model.Expr {
+			rec := model.Access(ctx, "rec")
+			return model.Bin(model.OEq, model.Access(model.If(model.Bin(model.OEq, a, lx), rec, rec), "k"), b)
+		}},
+		{"(if b == X then context.set else [X]).contains(a)", func(a, b *model.Expr) *model.Expr {
+			return model.Bin(model.OContains, model.If(model.Bin(model.OEq, b, lx), model.Access(ctx, "set"), model.SetE(lx)), a)
+		}},
+		{"(if a == X then context else context).rec.k == b", func(a, b *model.Expr) *model.Expr {
+			return model.Bin(model.OEq, model.Access(model.Access(model.If(model.Bin(model.OEq, a, lx), ctx, ctx), "rec"), "k"), b)
+		}},
 		// both operands of the membership test are KNOWN (X is a child of Z in the store) while
 		// another conjunct is unknown: the known part is folded at partial-evaluation time
 		{"X is U in Z && a == b", func(a, b *model.Expr) *model.Expr {
@@ -548,7 +559,7 @@ func c06directed(c *mon.Ctx) {
 			body = d.sh.mk(b, a)
 		}
 		mp := &model.Policy{Permit: d.permit, Conds: []model.Cond{{When: d.when, Body: body}}}
-		base := &model.Env{P: X, A: X, R: X, Ctx: model.Rec("k", X, "j", X), Store: map[string]*model.Entity{}}
+		base := &model.Env{P: X, A: X, R: X, Ctx: model.Rec("k", X, "j", X, "rec", model.Rec("k", X, "j", X), "set", model.Set(X, Y)), Store: map[string]*model.Entity{}}
 		base.Store[X.Key()] = &model.Entity{UID: X, Parents: []model.Val{Z}, Attrs: model.Rec(), Tags: model.Rec()}
 		base.Store[Y.Key()] = &model.Entity{UID: Y, Attrs: model.Rec(), Tags: model.Rec()}
 		t := &c06template{P: X, A: X, R: X, Ctx: base.Ctx, Vars: map[string][]model.Val{}, Ignored: map[string]bool{}}
@@ -605,7 +616,8 @@ func c06directed(c *mon.Ctx) {
 			setUnknown(a, "ua")
 			setUnknown(b, "ub")
 		}
-		t.Ctx = model.Rec("k", ctxK, "j", ctxJ)
+		// the same unknowns also sit one level down, inside a record and a set of the context
+		t.Ctx = model.Rec("k", ctxK, "j", ctxJ, "rec", model.Rec("k", ctxK, "j", ctxJ), "set", model.Set(ctxK, Y))
 		var m gen.Mentions
 		gen.CollectPolicy(&m, mp)
 		m.Ents = append(m.Ents, ents...)
